@@ -8,7 +8,7 @@ from ..outcome import fail, passed, exc_bucket
 
 ID = 'C18'
 LEVEL = 'exploration'
-CASES = {'quick': 8000, 'thorough': 120000}
+CASES = {'quick': 6000, 'thorough': 120000}
 CASE_TIMEOUT = 60
 RULE = ('Generated part: a multigraph of 1-8 nodes (thorough 1-10; junctions with demand >= 0, reservoirs, tanks) and '
         '0-10 links (thorough 0-14; pipes with length, pumps, valves; no self loops; parallel links in both '
@@ -46,7 +46,7 @@ LEVEL_NOTE = ('trusted base: the 15-line union-find in this module, pandas/netwo
 EXHAUSTIVE = {'quick': False, 'thorough': False,
               'what': 'for the enumerated small multigraphs all 2^k valve subsets are checked; the graph family '
                       'itself is bounded (<= 5 nodes, <= 5 links)'}
-SHRINK_BUDGET = {'quick': 40, 'thorough': 240}
+SHRINK_BUDGET = {'quick': 30, 'thorough': 240}
 
 RATIO_TOL = 1e-12
 
